@@ -41,6 +41,8 @@ type WorkerDone struct {
 	Bounds     map[string]int `json:"bounds"`
 	Pruned     int            `json:"pruned"`
 	Races      int            `json:"race_reports"`
+	FreeRuns   int            `json:"free_runs"`
+	FreeRaces  int            `json:"free_race_reports"`
 }
 
 // RunWorker explores this shard's share of every scenario of the property.
@@ -146,6 +148,30 @@ func RunWorker(prop, tier string, shard, nshards int, deadline time.Time) int {
 		}
 		if !stats.Complete {
 			done.Complete = false
+		}
+	}
+	// cross-check of the race monitor: the same scenario bodies free-running under -race (not a deciding step)
+	if prop == "C15" && rl != nil {
+		reps := 25
+		if tier == "thorough" {
+			reps = 200
+		}
+		for _, sp := range c15Specs() {
+			for i := 0; i < reps; i++ {
+				c15FreeRun(sp)
+				done.FreeRuns++
+			}
+			for _, rep := range rl.drain() {
+				done.FreeRaces++
+				sig := raceSignature(rep)
+				if raceSeen[sig] {
+					continue
+				}
+				raceSeen[sig] = true
+				emit("V", explore.VRec{Property: prop, Tier: tier, Family: "free-running:" + sp.name, Index: -1,
+					Desc:   map[string]any{"scenario": sp.name, "mode": "free-running -race cross-check"},
+					Clause: "data-race", Detail: "frames: " + sig + "\n" + clipReport(rep, 60), Reruns: 5})
+			}
 		}
 	}
 	for k := range keys {
